@@ -175,6 +175,7 @@ pub fn run_sdd_history(ctx: &mut Ctx, cfg: &SddCfg, ops: &[Op], checks: &SddChec
     }
     let mut rep: HashMap<Tt, SddPtr> = HashMap::new();
     let mut known: HashSet<SddPtr> = HashSet::new();
+    let hash_map = rsdd::repr::create_semantic_hash_map::<{ rsdd::constants::primes::U64_LARGEST }>(n);
     let mut out = SddRun {
         canon: Vec::new(),
         tts: Vec::new(),
@@ -263,6 +264,17 @@ pub fn run_sdd_history(ctx: &mut Ctx, cfg: &SddCfg, ops: &[Op], checks: &SddChec
             }
         }
         if checks.wellformed {
+            match step % 5 {
+                1 => {
+                    let _ = got.cached_semantic_hash(b.vtree_manager(), &hash_map);
+                    ctx.count("annotating_queries", 1);
+                }
+                3 => {
+                    let _ = got.count_nodes();
+                    ctx.count("annotating_queries", 1);
+                }
+                _ => {}
+            }
             check_wellformed(ctx, cfg, b, got, &got_tt, &mut walker, &mut rep, &mut known, step, op);
         }
         if checks.record_canon {
